@@ -4,7 +4,7 @@
    correspondence on every run; documented semantics: Model/Spec.v (README instruction tables). *)
 From Coq Require Import ZArith NArith List Bool.
 From BE Require Import Model.TableTypes Gen.Tables Model.Regs Model.Decode Model.IL Model.Lift Model.Static Model.Spec
-  Model.Emu Proofs.AluProofs Proofs.ExecProofs Proofs.AccessProofs Proofs.ExecProofs2 Proofs.ExecMemProofs Proofs.ExecPtrProofs.
+  Model.Emu Proofs.AluProofs Proofs.ExecProofs Proofs.AccessProofs Proofs.ExecProofs2 Proofs.ExecProofs3 Proofs.ExecMemProofs Proofs.ExecPtrProofs Proofs.ExecStackProofs.
 Import ListNotations.
 Open Scope Z_scope.
 
@@ -139,6 +139,25 @@ Proof.
   split; [exact mv_plus_A|]. split; [exact mv_minus_A|]. exact ptr_opcodes_check.
 Qed.
 Print Assumptions C04_mv_pointer_forms_exact.
+
+(* INC / DEC of A, BA and I (result wraps at the register's width, Z from the result, C untouched) and the user-stack
+   instructions PUSHU A (needs U >= 1) / POPU A: exactly the documented effect *)
+Theorem C04_incdec_reg_exact :
+  exec_is_spec (mk_instr 108 [OReg3 0] 2) 108 /\ exec_is_spec (mk_instr 108 [OReg3 2] 2) 108 /\ exec_is_spec (mk_instr 108 [OReg3 3] 2) 108 /\
+  exec_is_spec (mk_instr 124 [OReg3 0] 2) 124 /\ exec_is_spec (mk_instr 124 [OReg3 2] 2) 124 /\ exec_is_spec (mk_instr 124 [OReg3 3] 2) 124 /\
+  ((d_cls (entry_of 108), d_ops (entry_of 108)) = (I_INC, [PReg3]) /\ (d_cls (entry_of 124), d_ops (entry_of 124)) = (I_DEC, [PReg3])).
+Proof.
+  split; [exact inc_A|]. split; [exact inc_BA|]. split; [exact inc_I|]. split; [exact dec_A|]. split; [exact dec_BA|]. split; [exact dec_I|].
+  exact incdec_opcodes_check.
+Qed.
+Print Assumptions C04_incdec_reg_exact.
+
+Theorem C04_pushu_popu_A_exact :
+  stack_is_spec (mk_instr 40 [OReg RA 1] 1) 40 (fun s => 1 <= getr s gU) /\
+  stack_is_spec (mk_instr 56 [OReg RA 1] 1) 56 (fun _ => True) /\
+  ((d_cls (entry_of 40), d_ops (entry_of 40)) = (I_PUSHU, [PReg RA 1]) /\ (d_cls (entry_of 56), d_ops (entry_of 56)) = (I_POPU, [PReg RA 1])).
+Proof. split; [exact pushu_A|]. split; [exact popu_A|]. exact stack_opcodes_check. Qed.
+Print Assumptions C04_pushu_popu_A_exact.
 
 Theorem C04_more_opcodes_are_the_tables :
   (forallb (fun oc => match d_cls (entry_of (fst oc)), snd oc with
